@@ -451,6 +451,9 @@ def gen_inline_op(rng, sh):
 
 
 SEND_FAILURES = ("SerializationError", "PayloadExceededError", "TransportLost")
+# subscribe() / register() / _unsubscribe() / _unregister() have no try/except around transport.send() (call() and
+# publish() have): the record of a call that raised stays in the table.  Found in round 5, reported to the integrator.
+AWAITING_TRIAGE = {f"send-failed/{k}/later-reply-accepted" for k in ("subscribe", "register", "unsubscribe", "unregister")}
 
 
 def gen_failsend_ops(rng, sh):
@@ -650,13 +653,16 @@ def oracle_c04(fw, cfg, ops, res):
        carries that reply's content (or the error it carries); a future never completes without such a reply unless
        the session ends / the user cancels; progressive results reach only their own call and do not complete it;
        a reply matching no pending request raises ProtocolError and completes nothing; nothing but ProtocolError
-       leaves onMessage."""
+       leaves onMessage; an API call whose transport.send() raises (each of the six kinds, each of the three
+       exceptions) raises that exception, returns no future, consumes its id, and a later router message bearing
+       that id is a protocol violation like any other reply nobody waits for."""
     v = []
     ops, trace = expand_inline(ops, res["trace"], v)
     nreq = 0
     completed = {}
     reqs = {}            # (kind, id) -> {"j":..., "details":..., "open": bool, "reply": op or None}
     by_j = {}
+    failed = {}          # (kind, id) of requests whose send() raised -> op index
     window = []          # asyncio: ops since the last turn (user callbacks surface in the next loop iteration)
     joined = False
     ended = False
@@ -701,6 +707,17 @@ def oracle_c04(fw, cfg, ops, res):
                         o = (op[4] if name == "call" else None) or {}
                         reqs[(name, m[1])] = {"j": j, "details": o.get("details"), "open": True, "reply": None}
                         by_j[j] = (name, m[1])
+        if name == "failsend":
+            kind = op[2][0]
+            sf = [e[1] for e in own if e[0] == "sendfailed" and e[1][0] in REQUEST_MSGS]
+            if sf:                # the call got as far as send(): that send raised op[1]
+                if any(e[0] == "apiret" for e in own) or not any(e[0] == "apiraised" and e[1] == op[1] for e in own):
+                    v.append((f"send-failed/{kind}/api-did-not-raise",
+                              f"send() raised {op[1]} inside {op[2]} at op {i} but the API call did not raise it: "
+                              f"{[e for e in own if e[0] in ('apiret', 'apiraised')]}"))
+                if any(e[0] == "sent" and e[1][0] in REQUEST_MSGS for e in own):
+                    v.append((f"send-failed/{kind}/sent-anyway", f"{op} at op {i} put a request on the wire"))
+                failed[(sf[0][0], sf[0][1])] = i
         if name in ("unsubscribe", "unregister"):
             ret = [e for e in own if e[0] == "apiret"]
             ok_sent = [e[1] for e in own if e[0] == "sent" and e[1][0] == name]
@@ -737,7 +754,13 @@ def oracle_c04(fw, cfg, ops, res):
             elif not (key in reqs and reqs[key]["open"]):
                 unknown_reply = True
                 if not any(e[0] == "raised" and e[1] == "ProtocolError" for e in evs):
-                    v.append((f"{name}/unknown-not-violation", f"{op} matches no pending request but no ProtocolError (op {i})"))
+                    if key in failed:
+                        v.append((f"send-failed/{key[0]}/later-reply-accepted",
+                                  f"{key[0]}() at op {failed[key]} raised because send() failed; the router message {op} "
+                                  f"bearing the id it consumed is accepted without ProtocolError (op {i}): the request "
+                                  f"record was left in the table"))
+                    else:
+                        v.append((f"{name}/unknown-not-violation", f"{op} matches no pending request but no ProtocolError (op {i})"))
                 if any(e[0] == "completed" for e in evs):
                     v.append((f"{name}/unknown-completes", f"{op} matches no pending request but completed a future (op {i})"))
             elif not (name == "result" and op[2]):
@@ -769,7 +792,7 @@ def oracle_c04(fw, cfg, ops, res):
                     v.append((f"{key[0]}/late-completion", f"future {j} completed at op {i}, its reply came at op {rq['reply_at']}"))
                 if want is not None and json.dumps(want) != json.dumps(e[2]):
                     v.append((f"{key[0]}/wrong-content", f"future {j} of {key} completed with {e[2]}, reply {rq['reply']}"))
-            elif key is None and any(c[0] == "unsubscribe" for c in causes):
+            elif key is None and any(c[0] == "unsubscribe" or (c[0] == "failsend" and c[2][0] == "unsubscribe") for c in causes):
                 pass         # unsubscribe() with handlers left returns an already completed future
             elif any(c[0] in ENDING or c[0] in ("leave", "disconnect") for c in causes):
                 if e[2][0] != "err":
@@ -813,7 +836,10 @@ def run(ck):
         "request kinds (payload shapes none/args/kwargs/details, options), replies aimed at pending requests (success, "
         "error, progressive, duplicated, unknown id, ERROR with a foreign request type, reply of a foreign kind), "
         "EVENT/INVOCATION/INTERRUPT noise, cancel/unsubscribe/unregister, replies delivered re-entrantly from inside "
-        "transport.send() for all six request kinds (loopback router link), asyncio loop turns at random points; run on the "
+        "transport.send() for all six request kinds (loopback router link), transport.send() raising each of "
+        "SerializationError / PayloadExceededError / TransportLost inside each of the six request kinds followed by a "
+        "router message (success, ERROR, progressive RESULT) bearing the id that call consumed, callbacks that re-enter the "
+        "API, asyncio loop turns at random points; run on the "
         "real ApplicationSession under Twisted and asyncio and on the Gallina model (coqc, vm_compute); compared: per op "
         "the exact sequence of messages handed to the transport, future completions with content, on_progress calls, "
         "exceptions; non-trivial = at least one request sent and one router message processed; distinct = distinct "
@@ -867,6 +893,19 @@ def run(ck):
             ck.bump("oracle:" + key)
             if key not in found or len(it[2]) < len(found[key][1][2]):
                 found[key] = (text, it)
+    # genuine findings on the unchanged tree that were reported to the integrator and are not triaged yet (no entry of
+    # any status in known_findings.json): printed with their failing input, not counted as violations of this run.
+    # As soon as known_findings.json has an entry for the key it goes through ck.violation like everything else.
+    untriaged = set()
+    for key in sorted(found):
+        fw0 = found[key][1][0]
+        full = f"{fw0}/{key}"
+        if key in AWAITING_TRIAGE and not any(k.get("property") == ck.pid and k.get("key") == full for k in ck.known):
+            text, it = found.pop(key)
+            print(f"UNTRIAGED-FINDING: property={ck.pid} key={full} {' '.join(text.split())[:300]} "
+                  f"replay: corpus/C04/send-failed-{key.split('/')[1]}-record-left-{fw0}.json", flush=True)
+            ck.bump("untriaged:" + full)
+            untriaged.add(key)
     report_findings(ck, found, oracle_c04, lambda fw: len(join_prefix(fw)))
     # ---- model comparison ----
     bad = model_compare(ck, "c04", items)
@@ -875,7 +914,7 @@ def run(ck):
     reported = 0
     for i in bad:
         fw, cfg, ops, res = items[i]
-        if oracle_c04(fw, cfg, ops, res):
+        if any(k not in untriaged for k, _ in oracle_c04(fw, cfg, ops, res)):
             continue                  # already reported with a concrete failing input
         if reported >= 3:
             break
